@@ -113,7 +113,7 @@ def run(ctx: Ctx) -> Result:
                      ('a:b', 'a:B'), ('\uff41', 'a'), ('a\u200b', 'a'),
                      # prefixes that some templating would expand: the prefix is text, not a pattern
                      ('edge-{seq}', 'edge-0'), ('edge-{sec}', 'edge-1'), ('a{}', 'a1'), ('{{', '{'), ('a%d', 'a1'), ('%s', '1'),
-                     ('{0}', '1'), ('a{count}', 'a0'), ('a{last}', 'a1'), ('$x', 'x'), ('a\\1', 'a1')]:
+                     ('{0}', '1'), ('a{count}', 'a0'), ('a{last}', 'a1'), ('$x', 'x'), ('a\\1', 'a1')] + _case_variants():
         r = steps_to_readings(1, [0, 1, 0, 0, 1, -1, 0, 11, 0])
         try:
             i1, i2 = impl_ids(u1, r), impl_ids(u2, r)
@@ -407,6 +407,21 @@ def threaded_ids(nthreads, per, rng, perturb=False):
         return [i for o in out for i in o]
     finally:
         event_id_mod.time = old
+
+
+def _case_variants():
+    """URN-shaped prefixes that differ in the letter case of ONE OR MORE of their colon-separated fields (scheme, namespace,
+    the rest): whatever "canonical form" a standard defines for part of a URN, two different strings are two prefixes"""
+    import itertools
+    out = []
+    for base in ('URN:Plant:Node-1:X', 'Urn:BoboCEP:Device:7'):
+        f = base.split(':')
+        for mask in itertools.product((0, 1, 2), repeat=len(f)):
+            v = ':'.join((x, x.lower(), x.upper())[m] for x, m in zip(f, mask))
+            if v != base:
+                out.append((base, v))
+        out.append((base.lower(), base.upper()))
+    return out
 
 
 def source_constants(big=False):
